@@ -5,7 +5,10 @@
 // symbolic engine; natively they read the solver's model from the replay file.
 package vrt
 
-import "strconv"
+import (
+	"strconv"
+	"strings"
+)
 
 // Bytes returns nil, an empty slice or 1..maxLen arbitrary bytes.
 func Bytes(label string, maxLen int) []byte {
@@ -27,3 +30,6 @@ func Unreachable(label string) { Assert(false, label) }
 func Closed(ch <-chan struct{}) bool {
 	return IsClosed(ch)
 }
+
+// Contains reports whether s contains sub.
+func Contains(s, sub string) bool { return strings.Contains(s, sub) }
